@@ -38,6 +38,15 @@ func probeDesign() *m.Design {
 	d.Types = append(d.Types, &m.UserType{Name: "Entry", Var: "v5", Result: true, Identifier: "application/vnd.entry",
 		Attr:  rt.Obj(rt.Fld("ratio", m.Prim(m.Int), false), rt.Fld("b", m.UserRef("Opts"), false)),
 		Views: []*m.View{{Name: "default", Fields: allViews("ratio", "b")}, {Name: "tiny", Fields: allViews("ratio")}}})
+	// two sibling attributes of one nested result type rendered with different views by one view of the parent,
+	// the nested type has a required attribute outside its smaller view
+	d.Types = append(d.Types, &m.UserType{Name: "PNode", Var: "v6", Result: true, Identifier: "application/vnd.pnode",
+		Attr:  rt.Obj(rt.Fld("n", m.Prim(m.UInt32), false), rt.Fld("label", m.Prim(m.UInt), true)),
+		Views: []*m.View{{Name: "default", Fields: allViews("n", "label")}, {Name: "tiny", Fields: allViews("n")}}})
+	d.Types = append(d.Types, &m.UserType{Name: "PTree", Var: "v7", Result: true, Identifier: "application/vnd.ptree",
+		Attr: rt.Obj(rt.Fld("b", m.UserRef("PNode"), true), rt.Fld("a", m.UserRef("PNode"), false), rt.Fld("c", m.Prim(m.String), true)),
+		Views: []*m.View{{Name: "default", Fields: []m.ViewField{{Name: "b"}, {Name: "a", View: "default"}, {Name: "c"}}},
+			{Name: "tiny", Fields: []m.ViewField{{Name: "a", View: "tiny"}, {Name: "c"}, {Name: "b"}}}}})
 	s := &m.Service{Name: "probe", HasHTTP: true}
 	add := func(name, typ string, resps ...*m.Response) {
 		s.Methods = append(s.Methods, &m.Method{Name: name, Result: m.UserRef(typ), HTTP: &m.HTTPEndpoint{Routes: []m.Route{{Verb: "GET", Path: "/" + name}}, Responses: resps}})
@@ -46,6 +55,7 @@ func probeDesign() *m.Design {
 	add("getinner", "Inner", &m.Response{Status: 200, Headers: []m.Mapping{{Attr: "c", Wire: "X-C"}}})
 	add("getbox", "Box")
 	add("getentry", "Entry")
+	add("gettree", "PTree")
 	d.Services = []*m.Service{s}
 	return d
 }
@@ -115,6 +125,13 @@ func TestProbes(t *testing.T) {
 			return false, "inconclusive"
 		}
 		return o.ClientErr != nil && strings.Contains(o.ClientErr.Text, "is missing"), "Entry{ratio, b: Opts (optional)}, Opts{b required}: result {ratio:1} is a valid Entry; the generated client answers: " + fmt.Sprintf("%+v", o.ClientErr)
+	})
+	rt.Probe("C08-sibling-nested-views-client-derefs-required-attribute-outside-the-view", func() (bool, string) {
+		node := func(n, label int64) value.V { return value.Object(f("n", value.Int(n)), f("label", value.Int(label))) }
+		res := value.Object(f("b", node(1, 2)), f("a", node(3, 4)), f("c", value.Str("x")))
+		o := do(&harness.Case{Op: "call", Svc: "probe", Method: "gettree", Stub: harness.StubSpec{HasResult: true, Result: res, View: "tiny"}})
+		t.Logf("tree probe: err=%q clienterr=%v panic=%q", o.Err, o.ClientErr, firstLines(o.Panic, 2))
+		return o.Panic != "" && strings.Contains(o.Panic, "transform"), "PTree view tiny = {a (PNode tiny), c, b (PNode default)}, PNode requires label outside its tiny view: the generated client builds a through a view-blind transform helper and dereferences the absent label: " + firstLines(o.Panic, 1)
 	})
 	rt.Probe("C08-required-object-absent-client-panic", func() (bool, string) {
 		res := value.Object(f("c", value.Int(1)), f("size", value.Object(f("b", value.Int(2)))))
